@@ -1,4 +1,5 @@
 import SgVerif.LmmBook.Frame
+import SgVerif.LmmBook.Marks
 /-
 C17 — Selective (lazy) solving equals full recomputation.  Property theorems over the bookkeeping model
 `SgVerif.LmmBook` (src/kernel/lmm/System.cpp): modified constraint set, `visited_` marks, `visited_counter_`.
@@ -107,6 +108,46 @@ theorem wraparound_resets_marks (s : Sys) (hcfg : s.cfg.fixWrap = true) (hc : s.
     · intro v hvm; have := hv v hvm; omega
     · intro v hvm; have := hv v hvm; omega
 
+/-- **marks_invariant** (full strength, repaired `remove_all_modified_cnst_set`; the other switches are free): the
+invariant that `wraparound_resets_marks` assumes is carried through EVERY public operation of EVERY history (any
+length — in particular histories of more than 2^32 solves, which no test can run —, `force_creation` included, no
+"no assertion fired" hypothesis): `visited_counter_` stays in `[1, 2^32)`, no live variable carries a mark above the
+counter, and every live variable is in `variable_set` (the list the wrap-around reset iterates over). -/
+theorem marks_invariant (cfg : Cfg) (hfix : cfg.fixWrap = true) (sel : Bool) (h : List Op) :
+    let s := run (init cfg sel) h
+    1 ≤ s.counter ∧ s.counter < U32 ∧ (∀ v, (s.vars v).alive = true → (s.vars v).visited ≤ s.counter) ∧
+    (∀ v, (s.vars v).alive = true → v ∈ s.varset) := by
+  have := run_MK h (init cfg sel) hfix (MK_init cfg sel)
+  exact ⟨this.lo, this.hi, this.le, this.vs⟩
+
+/-- **marks_fresh_after_solve** (full strength, repaired code): after ANY history, an effective `solve` of a selective
+system leaves NO live variable whose mark equals `visited_counter_` — every live variable looks "not yet visited" to
+the next `update_modified_cnst_set_rec`, also when the counter wraps (on the current code this fails:
+`wraparound_counterexample`). -/
+theorem marks_fresh_after_solve (cfg : Cfg) (hfix : cfg.fixWrap = true) (h : List Op)
+    (hm : (run (init cfg true) h).modflag = true) (hnf : (run (init cfg true) h).failed = false) (v : Nat)
+    (ha : ((run (init cfg true) (h ++ [.solve])).vars v).alive = true) :
+    ((run (init cfg true) (h ++ [.solve])).vars v).visited ≠ (run (init cfg true) (h ++ [.solve])).counter := by
+  have hk := run_MK h (init cfg true) hfix (MK_init cfg true)
+  have hsel : (run (init cfg true) h).sel = true := run_sel h _
+  have hcfg : (run (init cfg true) h).cfg.fixWrap = true := by rw [run_cfg]; exact hfix
+  have hrun : run (init cfg true) (h ++ [.solve])
+      = removeAllModified { run (init cfg true) h with modflag := false } :=
+    (run_append_one _ h .solve).trans (step_solve_eff _ hnf hm hsel)
+  rw [hrun] at ha ⊢
+  exact MK_removeAllModified_fresh (s := { run (init cfg true) h with modflag := false }) hcfg
+    (hk.frame (mkf_modflag _ false)) v ha
+
+/-- non-vacuity of `marks_invariant` / `marks_fresh_after_solve`: on the resume history (repaired code) the counter is 2
+and three live variables carry the mark 2 (the bound `≤` is tight); the solve that follows is effective, fires no
+assertion, and afterwards the counter is 3 while the marks are still 2 -/
+example :
+    let s := run (init Cfg.fixed true) resumeWitness
+    let s' := run (init Cfg.fixed true) (resumeWitness ++ [.solve])
+    s.counter = 2 ∧ (s.vars 0).alive = true ∧ (s.vars 0).visited = 2 ∧ (s.vars 2).visited = 2 ∧ s.modflag = true ∧
+    s.failed = false ∧ s'.counter = 3 ∧ (s'.vars 0).alive = true ∧ (s'.vars 0).visited = 2 := by
+  decide
+
 /-- **counterexample on the current code**: the reset happens when the counter becomes 1, so it first takes the
 value 0 — the value the marks are reset to, and the mark of a variable created at the beginning and never visited.
 State: the invariant of `wraparound_resets_marks` holds, yet after the call a live variable's mark equals the counter. -/
@@ -195,5 +236,35 @@ theorem selective_eq_full_of_closed (solve : Sys → (Nat → Prop) → Nat → 
       obtain ⟨e', he', hv'⟩ := List.mem_map.mp this
       exact ⟨c, trivial, e', he', hv'⟩
     rw [hprev v hsp, ← h2, h1]
+
+/-- **selective_eq_full_partial**: `selective_eq_full_of_closed` for a state reached by ANY history in which no assertion
+fired: the two well-formedness hypotheses (`hwf`, `hwf2`) are discharged by `run_WF` (element lists are well-formed
+after every history, LmmBook/WFRun.lean).  Remaining hypotheses, NOT yet theorems over histories: closure of the
+modified set (`hclosed`) and unchanged data outside it (`hunt`); and `Local` on the solver. -/
+theorem selective_eq_full_partial (solve : Sys → (Nat → Prop) → Nat → Rat) (hloc : Local solve)
+    (cfg : Cfg) (sel : Bool) (h : List Op) (hnf : (run (init cfg sel) h).failed = false)
+    (sp : Sys) (M : Nat → Prop) (old : Nat → Rat)
+    (hprev : ∀ v, Touches sp (fun _ => True) v → old v = solve sp (fun _ => True) v)
+    (hclosed : Closed (run (init cfg sel) h) M)
+    (hunt : ∀ c, ¬ M c → cdata (run (init cfg sel) h) c = cdata sp c)
+    (new : Nat → Rat)
+    (hnewM : ∀ v, Touches (run (init cfg sel) h) M v → new v = solve (run (init cfg sel) h) M v)
+    (hnewO : ∀ v, ¬ Touches (run (init cfg sel) h) M v → new v = old v) :
+    ∀ v, Touches (run (init cfg sel) h) (fun _ => True) v → new v = solve (run (init cfg sel) h) (fun _ => True) v := by
+  have hl := (run_WF cfg sel h hnf).wfl
+  apply selective_eq_full_of_closed solve hloc sp _ M old hprev hclosed hunt ?_ ?_ new hnewM hnewO
+  · intro c e he c2 hc2
+    obtain ⟨j, hj⟩ := List.mem_iff_getElem?.mp hc2
+    have hloc' := (hl.enA c e he).2
+    obtain ⟨e2, he2, hr⟩ := hl.enD e.var j c2 hj (by simpa [stdLoc] using hloc')
+    exact ⟨e2, he2, ((isRef_iff e.var j e2).mp hr).1⟩
+  · intro c e he
+    exact List.mem_iff_getElem?.mpr ⟨_, (hl.enA c e he).1⟩
+
+/-- non-vacuity of `selective_eq_full_partial`: the repaired resume history fires no assertion and its modified set is
+closed (hypotheses `hnf`, `hclosed` with `M := (· ∈ s.modified)` are satisfiable on a non-trivial state) -/
+example :
+    let s := run (init Cfg.fixed true) resumeWitness
+    s.failed = false ∧ closedModified s = true ∧ s.modified = [0, 1, 2] := by decide
 
 end SgVerif.C17
